@@ -3,7 +3,7 @@
    <impl> is computed from Model/Tx.v + Model/VarInt.v + Model/Script.v (transcription of the Rust code);
    <spec> only from Spec/TxWire.v (independent wire decoder/encoder), Spec/ScriptTok.v (C02's independent
    script tokenizer: which byte strings are scripts) and Prim/Sha256.v. *)
-From BSV Require Import Base.Hex Model.Opcodes Model.Script Model.VarInt Model.Tx Spec.ScriptTok Spec.TxWire Prim.Sha256.
+From BSV Require Import Base.Hex Model.Opcodes Model.Script Model.VarInt Model.Tx Model.TxExt Spec.ScriptTok Spec.TxWire Prim.Sha256.
 
 Definition out3 (impl spec known : string) : string := impl +++ "|" +++ spec +++ "|" +++ known.
 Definition sha256d (m : bytes) : bytes := sha256 (sha256 m).
@@ -225,6 +225,92 @@ Definition run_tx_build (args : list string) : string :=
   end.
 
 (* ------------------------------------------------------------------ *)
+(* tx.build_ext ver lt nin nout (id vout script seq|- lock|- sat|- mode)* (value script)*
+   lock: bytes of a locking script attached with set_locking_script, or - ; sat: value for set_satoshis, or - ;
+   mode b: annotate before add_input;  mode a: add_input, then get_input / annotate / set_input at that index.
+   Output: bytes, txid, size, per input (to_bytes, get_unlocking_script_size). *)
+Record ext_in := mk_ext { e_fields : in_fields; e_seq : option N; e_lock : option bytes; e_sat : option N; e_after : bool }.
+
+Fixpoint parse_ins_ext (n : nat) (args : list string) : option (list ext_in * list string) :=
+  match n with
+  | O => Some ([], args)
+  | S n' =>
+      match args with
+      | a :: b :: c :: d :: e :: f :: g :: r =>
+          match expand a, N_of_dec b, expand c, (if String.eqb d "-" then Some None else option_map Some (N_of_dec d)),
+                (if String.eqb e "-" then Some None else option_map Some (expand e)),
+                (if String.eqb f "-" then Some None else option_map Some (N_of_dec f)),
+                (if String.eqb g "b" then Some false else if String.eqb g "a" then Some true else None), parse_ins_ext n' r with
+          | Some id, Some vo, Some s, Some sq, Some lk, Some sa, Some md, Some (l, r') =>
+              Some (mk_ext (mk_in id vo s (match sq with Some v => v | None => 4294967295%N end)) sq lk sa md :: l, r')
+          | _, _, _, _, _, _, _, _ => None
+          end
+      | _ => None
+      end
+  end.
+
+Fixpoint build_ins_ext (t : tx) (l : list ext_in) : outcome tx :=
+  match l with
+  | [] => Ok t
+  | e :: r =>
+      let i := e_fields e in
+      do scr <- (if is_coinbase_outpoint (f_prev i) (f_vout i) then Ok [BCoinbase (f_script i)] else from_bytes (f_script i));
+      do lk <- (match e_lock e with Some lb => do l0 <- from_bytes lb; Ok (Some l0) | None => Ok None end);
+      let plain := txin_new (f_prev i) (f_vout i) scr (e_seq e) in
+      do t1 <- (if e_after e then
+                  let t0 := add_input t plain in
+                  let k := length (inputs t) in
+                  match tx_get_input t0 k with
+                  | Some got => tx_set_input t0 k (txin_annotate got lk (e_sat e))
+                  | None => Panic
+                  end
+                else Ok (add_input t (txin_annotate plain lk (e_sat e))));
+      build_ins_ext t1 r
+  end.
+
+Definition show_in_ext_impl (i : txin) : string :=
+  show_bytes (txin_bytes i) +++ "," +++ dec_of_N (txin_unlocking_script_size i) +++ "/".
+Definition show_in_ext_spec (i : in_fields) : string :=
+  show_bytes (encode_in i) +++ "," +++ dec_of_N (N.of_nat (length (f_script i))) +++ "/".
+
+Definition run_tx_build_ext (args : list string) : string :=
+  match args with
+  | a :: b :: c :: d :: rest =>
+      match N_of_dec a, N_of_dec b, N_of_dec c, N_of_dec d with
+      | Some ver, Some lt, Some nin, Some nout =>
+          if (1000 <? nin)%N || (1000 <? nout)%N then "BADARG" else
+          match parse_ins_ext (N.to_nat nin) rest with
+          | Some (ins, rest') =>
+              match parse_outs (N.to_nat nout) rest' with
+              | Some (outs, []) =>
+                  let f := mk_fields ver (map e_fields ins) outs lt in
+                  let r := (do t1 <- build_ins_ext (tx_new ver lt) ins; build_outs t1 outs) in
+                  let ib := match r with Ok t => tx_bytes t | _ => [] end in
+                  let ih := match r with Ok _ => sha256d ib | _ => [] end in
+                  let impl := match r with
+                              | Ok t => "OK:" +++ show_bytes ib +++ ";" +++ hex_of_bytes (rev ih) +++ ";" +++ dec_of_N (tx_size t) +++ ";"
+                                        +++ show_long (cat_map show_in_ext_impl (inputs t))
+                              | Err => "ERR" | Panic => "PANIC" end in
+                  (* the attached locking scripts must be scripts too; they are not part of the encoding *)
+                  let lc := fold_right (fun e c => match e_lock e with Some lb => join_class (classify lb) c | None => c end) SGood ins in
+                  match join_class (fields_class f) lc with
+                  | SBad => out3 impl "ERR" "-"
+                  | STrunc => out3 impl "ERR" "truncated-direct-push"
+                  | SGood => let enc := encode_tx_spec f in
+                             let h := if bytes_eqb enc ib then ih else sha256d enc in
+                             out3 impl ("OK:" +++ show_bytes enc +++ ";" +++ hex_of_bytes (rev h) +++ ";" +++ dec_of_N (N.of_nat (length enc)) +++ ";"
+                                        +++ show_long (cat_map show_in_ext_spec (f_ins f))) "-"
+                  end
+              | _ => "BADARG"
+              end
+          | None => "BADARG"
+          end
+      | _, _, _, _ => "BADARG"
+      end
+  | _ => "BADARG"
+  end.
+
+(* ------------------------------------------------------------------ *)
 Definition run_varint_write (n : N) : string :=
   out3 ("OK:" +++ hex_of_bytes (write_varint n)) ("OK:" +++ hex_of_bytes (compact n)) "-".
 Definition run_varint_bytes (n : N) : string :=
@@ -250,6 +336,7 @@ Definition run (op : string) (args : list string) : string :=
   match op, args with
   | "tx.parse", [a] => with_bytes a run_tx_parse
   | "tx.build", _ => run_tx_build args
+  | "tx.build_ext", _ => run_tx_build_ext args
   | "txin.parse", [a] => with_bytes a run_txin_parse
   | "txout.parse", [a] => with_bytes a run_txout_parse
   | "txin.outpoint", [a] => with_bytes a run_txin_outpoint
